@@ -123,9 +123,12 @@ func runC09(c *eng.Ctx, tier string) {
 		}
 	}
 
+	errorWrapDiscipline(c, "R-C09-6")
 	c09Server(c, d)
 	c09Client(c)
 	c09FileClient(c)
+	// version 0 is never stored by the file-backed client (so V = 0 always yields the value): the loader's guards of R-C13-4
+	include(c, "R-C09-5", func(sc *eng.Ctx) { c13Wire(sc) })
 }
 
 func c09Server(c *eng.Ctx, d *dbInfo) {
